@@ -79,7 +79,7 @@ func firstDiff(a, b []byte) int {
 	return -1
 }
 
-// case: logger <size> <chunk> <stall call> <stall ms> <each us> <seed>
+// case: logger <size> <chunk> <stall call> <stall ms> <each us> <seed> [<pace us between stdin writes>]
 // obs:  in=<sha8> out=<same|len:firstdiff> rec=<same|len:firstdiff> | hang
 func runLoggerCase(f []string) string {
 	size, _ := strconv.Atoi(f[1])
@@ -88,6 +88,10 @@ func runLoggerCase(f []string) string {
 	stallMs, _ := strconv.Atoi(f[4])
 	eachUs, _ := strconv.Atoi(f[5])
 	seed, _ := strconv.ParseInt(f[6], 10, 64)
+	pace := 0
+	if len(f) > 7 {
+		pace, _ = strconv.Atoi(f[7])
+	}
 	data := make([]byte, size)
 	rand.New(rand.NewSource(seed)).Read(data)
 
@@ -113,6 +117,9 @@ func runLoggerCase(f []string) string {
 				end = len(data)
 			}
 			inW.Write(data[pos:end])
+			if pace > 0 {
+				time.Sleep(time.Duration(pace) * time.Microsecond)
+			}
 		}
 		inW.Close()
 	}()
